@@ -239,7 +239,7 @@ def gen_rtl(rng):
   num = rng.randint(lo, lo + 3)
   B = 3
   separate = rng.random() < 0.4
-  return dict(kind="rtl", rank=rank, L=L, form=form, inc=inc, unc=unc, num=num, separate=separate,
+  return dict(kind="rtl", rev=rng.random() < 0.5, rank=rank, L=L, form=form, inc=inc, unc=unc, num=num, separate=separate,
               average=rng.random() < 0.3, clip=rng.random() < 0.6,
               interp=rng.choice(["hypercube", "hypercube", "simplex"]),
               param=rng.choice(["all_vertices", "all_vertices", "all_vertices", "kronecker_factored"]),
@@ -564,6 +564,9 @@ def eval_rtl(tf, tfl, d):
       x["increasing"] = [tf.constant(g) for g in inc]
     if unc:
       x["unconstrained"] = [tf.constant(g) for g in unc]
+  if isinstance(x, dict) and d.get("rev"):
+    # insertion order 'unconstrained' before 'increasing': the layer must still read the keys in sorted order
+    x = dict(reversed(list(x.items())))
   layer(x)  # builds
   structure = [(tuple(int(m) for m in monos), [[int(i) for i in row] for row in ifu])
                for monos, ifu in layer._rtl_structure]  # pylint: disable=protected-access
